@@ -37,10 +37,23 @@ pub struct TcpSnap {
     pub remote: Option<(Addr, u16)>,
 }
 
+impl TcpSnap {
+    pub fn describe(&self) -> String {
+        let ep = |e: &Option<(Addr, u16)>| e.as_ref().map(|(a, p)| format!("{}:{}", a, p)).unwrap_or_else(|| "-".into());
+        format!(
+            "state={} listen={}:{} local={} remote={}",
+            self.state,
+            self.listen.0.as_ref().map(|a| a.to_string()).unwrap_or_else(|| "*".into()),
+            self.listen.1,
+            ep(&self.local),
+            ep(&self.remote)
+        )
+    }
+}
+
 pub struct World {
     pub med: Med,
     pub ver: Ver,
-    pub sock: Sock,
     pub dev: SimDevice,
     pub iface: Interface,
     pub sockets: SocketSet<'static>,
@@ -49,11 +62,9 @@ pub struct World {
     pub h_icmp_ident: Option<SocketHandle>,
     pub h_icmp_udp: Option<SocketHandle>,
     pub h_dns: Option<SocketHandle>,
-    pub n_raw: usize,
     /// local port and transaction id of the pending DNS query (parsed from the query on the wire)
     pub dns_port: u16,
     pub dns_txid: u16,
-    pub two_addrs: bool,
     pub setup_log: Vec<String>,
     pub errors: Vec<String>,
 }
@@ -113,7 +124,6 @@ impl World {
 
         let mut sockets = SocketSet::new(vec![]);
         let (mut h_tcp, mut h_udp, mut h_icmp_ident, mut h_icmp_udp, mut h_dns) = (None, None, None, None, None);
-        let mut n_raw = 0;
         if sock != Sock::NoSock {
             let bound = sock == Sock::Bound;
             let ep = |port: u16| -> IpListenEndpoint {
@@ -123,14 +133,14 @@ impl World {
                     IpListenEndpoint { addr: None, port }
                 }
             };
-            let mut t = tcp::Socket::new(tcp::SocketBuffer::new(vec![0u8; 256]), tcp::SocketBuffer::new(vec![0u8; 256]));
+            let mut t = tcp::Socket::new(tcp::SocketBuffer::new(vec![0u8; 64]), tcp::SocketBuffer::new(vec![0u8; 32]));
             if t.listen(ep(TCP_PORT)).is_err() {
                 errors.push("listen failed".into());
             }
             h_tcp = Some(sockets.add(t));
             let mut u = udp::Socket::new(
-                udp::PacketBuffer::new(vec![udp::PacketMetadata::EMPTY; 4], vec![0u8; 256]),
-                udp::PacketBuffer::new(vec![udp::PacketMetadata::EMPTY; 4], vec![0u8; 256]),
+                udp::PacketBuffer::new(vec![udp::PacketMetadata::EMPTY; 4], vec![0u8; 32]),
+                udp::PacketBuffer::new(vec![udp::PacketMetadata::EMPTY; 1], vec![0u8; 8]),
             );
             if u.bind(ep(UDP_PORT)).is_err() {
                 errors.push("udp bind failed".into());
@@ -138,8 +148,8 @@ impl World {
             h_udp = Some(sockets.add(u));
             let mk_icmp = || {
                 icmp::Socket::new(
-                    icmp::PacketBuffer::new(vec![icmp::PacketMetadata::EMPTY; 4], vec![0u8; 512]),
-                    icmp::PacketBuffer::new(vec![icmp::PacketMetadata::EMPTY; 4], vec![0u8; 512]),
+                    icmp::PacketBuffer::new(vec![icmp::PacketMetadata::EMPTY; 2], vec![0u8; 160]),
+                    icmp::PacketBuffer::new(vec![icmp::PacketMetadata::EMPTY; 1], vec![0u8; 8]),
                 )
             };
             let mut i1 = mk_icmp();
@@ -165,11 +175,10 @@ impl World {
                     let r = raw::Socket::new(
                         Some(v),
                         Some(p),
-                        raw::PacketBuffer::new(vec![raw::PacketMetadata::EMPTY; 8], vec![0u8; 2048]),
-                        raw::PacketBuffer::new(vec![raw::PacketMetadata::EMPTY; 2], vec![0u8; 256]),
+                        raw::PacketBuffer::new(vec![raw::PacketMetadata::EMPTY; 4], vec![0u8; 512]),
+                        raw::PacketBuffer::new(vec![raw::PacketMetadata::EMPTY; 1], vec![0u8; 8]),
                     );
                     sockets.add(r);
-                    n_raw += 1;
                 }
             }
             if sock == Sock::Dns {
@@ -180,7 +189,6 @@ impl World {
         let mut w = World {
             med,
             ver,
-            sock,
             dev,
             iface,
             sockets,
@@ -189,10 +197,8 @@ impl World {
             h_icmp_ident,
             h_icmp_udp,
             h_dns,
-            n_raw,
             dns_port: 0,
             dns_txid: 0,
-            two_addrs,
             setup_log: vec![],
             errors,
         };
@@ -311,10 +317,25 @@ impl World {
     /// Inject one frame; first `poll_ingress_single` (the direct answer), then a full `poll`
     /// (socket egress: SYN-ACKs etc.). Returns everything emitted.
     pub fn apply(&mut self, frame: &[u8]) -> Vec<Out> {
+        self.apply_mid(frame).0
+    }
+    /// only `poll_ingress_single`, no egress pass (models a second frame already waiting in the
+    /// receive queue: `poll` processes all queued frames before any socket egress)
+    pub fn apply_ingress_only(&mut self, frame: &[u8]) -> Vec<Out> {
+        self.dev.rx.push_back(frame.to_vec());
+        let t = self.now();
+        self.iface.poll_ingress_single(t, &mut self.dev, &mut self.sockets);
+        self.drain()
+    }
+    /// like `apply`, also returns the socket images and the TCP socket snapshot taken between
+    /// ingress and egress
+    #[allow(clippy::type_complexity)]
+    pub fn apply_mid(&mut self, frame: &[u8]) -> (Vec<Out>, (Vec<(&'static str, String)>, Option<TcpSnap>)) {
         self.dev.rx.push_back(frame.to_vec());
         let t = self.now();
         self.iface.poll_ingress_single(t, &mut self.dev, &mut self.sockets);
         let mut outs = self.drain();
+        let mid = (self.images(), self.tcp_snap());
         for _ in 0..4 {
             let more = self.poll_collect();
             if more.is_empty() {
@@ -322,7 +343,7 @@ impl World {
             }
             outs.extend(more);
         }
-        outs
+        (outs, mid)
     }
 
     /// `{:?}` images of the TCP/UDP/ICMP/DNS sockets (raw sockets excluded on purpose)
@@ -344,6 +365,14 @@ impl World {
             v.push(("dns", format!("{:?}", self.sockets.get::<dns::Socket>(h))));
         }
         v
+    }
+
+    /// Fingerprint of everything that determines future behaviour: the interface digest hook
+    /// (neighbor cache, counters, PRNG, multicast, fragmentation state) and the `{:?}` image of
+    /// the whole SocketSet. Used ONLY to merge equivalent first frames in the generic depth-2
+    /// exploration, never as an oracle.
+    pub fn state_fp(&self) -> u128 {
+        crate::core::fp128(&(self.iface.verif_digest(), format!("{:?}", self.sockets)))
     }
 
     pub fn tcp_snap(&self) -> Option<TcpSnap> {
